@@ -48,6 +48,7 @@ type World struct {
 
 	cgOnce sync.Once
 	cg     *callgraph.Graph
+	allFuncs map[*ssa.Function]bool
 }
 
 // LoadWorld loads /repo's current working tree. overlay maps absolute file name to contents
@@ -478,4 +479,12 @@ func (r *Report) Emit(tier string, seed int, start time.Time, quiet bool) int {
 		return 1
 	}
 	return 0
+}
+
+// AllFuncs: every function of the program (cached).
+func (w *World) AllFuncs() map[*ssa.Function]bool {
+	if w.allFuncs == nil {
+		w.allFuncs = ssautil.AllFunctions(w.Prog)
+	}
+	return w.allFuncs
 }
